@@ -38,7 +38,12 @@ ALPHABET_TEXT = list('"\'\\|>!&*%[]{}:#-?@`,~<=') + ['\n', '\r', '\t', ' ', '\x0
 ALPHABET_BYTES = [ord(c) for c in '"\'\\|>!&*%[]{}:#-?@`,~<=\n\r\t 09UuxFfG'] + [0x00, 0x85, 0xFF, 0xFE, 0xC0, 0xC2, 0xEF, 0xBB, 0xBF,
                                                                                  0x80, 0xE2, 0xED, 0xF4, 0xF8, 0x7F, 0x01]
 FAULTS = ['truncate', 'bitflip', 'overwrite', 'drop', 'duplicate', 'stutter', 'swap', 'garbage', 'bom', 'oddlen',
-          'confuse', 'surrogate', 'nest', 'transcode']
+          'confuse', 'surrogate', 'nest', 'transcode', 'numfield']
+# what ends up in a numeric field (escape code, URI escape, version number, indentation indicator)
+# after a small corruption: the characters that int() / float() / str.isdigit() accept or almost accept
+NUMFIELD_CHARS = ['-', '+', ' ', '\t', '_', '.', 'x', 'X', 'o', 'b', 'e', 'L', 'l', 'G', 'g', '\n', '\u0663', '\u00b2', '\u2460', '\uff10',
+                  '\u0967', '\u2082', '\x00', '\x85', '\xa0', '%', '\\']
+NUMFIELD_RE = None
 # what a lossy transcoder / input method does to ASCII: characters that Python's str predicates
 # (isdigit, isdecimal, isspace, isalpha, lower, upper) classify like their ASCII look-alikes
 CONFUSABLE = {
@@ -73,6 +78,35 @@ def pick_pos(r, units, n):
     return r.randint(0, n)
 
 
+def numfield_pos(r, units, is_text):
+    """Offset (in units) of a digit inside a numeric field: a URI escape, a \\x \\u \\U escape, a
+    %YAML version, a block scalar indentation indicator, or any other run of digits."""
+    global NUMFIELD_RE
+    import re
+    if NUMFIELD_RE is None:
+        NUMFIELD_RE = re.compile(r'%[0-9A-Fa-f]{2}|\\x[0-9A-Fa-f]{2}|\\u[0-9A-Fa-f]{4}|\\U[0-9A-Fa-f]{8}|%YAML +[0-9]+\.[0-9]+|[|>][+-]?[0-9]|[0-9]+')
+    wide = None
+    if is_text:
+        text = units
+    elif units[:2] in (b'\xff\xfe', b'\xfe\xff'):
+        wide = 'utf-16-le' if units[:2] == b'\xff\xfe' else 'utf-16-be'
+        text = units[2:].decode(wide, 'replace')
+    else:
+        text = units.decode('latin-1')
+    ms = list(NUMFIELD_RE.finditer(text))
+    if not ms:
+        return None
+    special = [m for m in ms if not m.group()[0].isdigit()]
+    m = r.choice(special) if special and r.random() < 0.75 else r.choice(ms)
+    digits = [i for i in range(m.start(), m.end()) if text[i] in '0123456789abcdefABCDEF' and not (text[i] in 'AaML' and m.group().startswith('%YAML'))]
+    if not digits:
+        return None
+    q = r.choice(digits)
+    if wide:
+        return 2 + 2 * len(text[:q].encode(wide)) // 2
+    return q
+
+
 def gen_fault(r, units, is_text):
     n = len(units)
     kind = r.choice(FAULTS)
@@ -96,6 +130,14 @@ def gen_fault(r, units, is_text):
                 break
         else:
             f['unit'] = r.choice(CONFUSABLE[r.choice(sorted(CONFUSABLE))])
+    elif kind == 'numfield':
+        q = numfield_pos(r, units, is_text)
+        if q is None:
+            f['kind'] = 'overwrite'
+            f['unit'] = r.choice(ALPHABET_TEXT) if is_text else r.choice(ALPHABET_BYTES)
+        else:
+            f['at'] = q
+            f['unit'] = r.choice(NUMFIELD_CHARS)
     elif kind == 'bitflip':
         f['bit'] = r.randrange(8 if not is_text else 7)
     elif kind == 'overwrite':
@@ -148,6 +190,16 @@ def apply_fault(units, f, is_text):
         if p >= n:
             return units
         return units[:p] + (f['unit'] if is_text else bytes([f['unit']])) + units[p + 1:]
+    if k == 'numfield':
+        if p >= n:
+            return units
+        if is_text:
+            return units[:p] + f['unit'] + units[p + 1:]
+        if units[:2] in (b'\xff\xfe', b'\xfe\xff'):
+            enc = 'utf-16-le' if units[:2] == b'\xff\xfe' else 'utf-16-be'
+            p -= (p - 2) % 2
+            return units[:p] + f['unit'].encode(enc) + units[p + 2:]
+        return units[:p] + f['unit'].encode('utf-8') + units[p + 1:]
     if k == 'transcode':
         if p >= n:
             return units
@@ -292,6 +344,32 @@ def bounds(units, is_text):
     return nchars, len(lines) + 1, max(len(l) for l in lines) + 2
 
 
+URI_RUN = None
+
+
+def bad_uri_escape(units, is_text):
+    """True iff the delivered text contains a run of %XX escapes whose octets are not valid UTF-8
+    (overlong forms, surrogates, beyond U+10FFFF, ...): the only inputs known finding K4 is matched on."""
+    global URI_RUN
+    import re
+    if URI_RUN is None:
+        URI_RUN = re.compile(r'(?:%[0-9A-Fa-f]{2})+')
+    if is_text:
+        text = units
+    elif units[:2] == b'\xff\xfe':
+        text = units.decode('utf-16-le', 'replace')
+    elif units[:2] == b'\xfe\xff':
+        text = units.decode('utf-16-be', 'replace')
+    else:
+        text = units.decode('utf-8', 'replace')
+    for m in URI_RUN.finditer(text):
+        try:
+            bytes.fromhex(m.group().replace('%', '')).decode('utf-8')
+        except UnicodeDecodeError:
+            return True
+    return False
+
+
 def check_marks(exc, units, is_text, lim):
     import yaml
     bad = []
@@ -365,11 +443,13 @@ def execute(case):
                 cls = 'non-yaml-exception:' + type(e).__name__
                 if backend == 'c' and has_surrogate and isinstance(e, UnicodeEncodeError):
                     cls = 'K3-c-parser-lone-surrogate'
+                elif backend == 'c' and isinstance(e, UnicodeDecodeError) and bad_uri_escape(units, is_text):
+                    cls = 'K4-c-parser-uri-escape-invalid-utf8'
                 out['violations'].append({'class': cls, 'detail': {'load': [backend, api, via], 'exception': type(e).__name__,
                                                                   'message': str(e)[:300]}})
                 logparts.append([backend, api, via, 'EXC', type(e).__name__])
                 out['evals'] += 1
-                if cls.startswith('K3'):
+                if cls.startswith(('K3', 'K4')):
                     continue
                 break
             out['evals'] += 1
@@ -385,9 +465,10 @@ def execute(case):
             logparts.append([backend, api, via, n_items, observe.error(exc) if exc is not None else None])
     except kernel.Hang:
         out['violations'].append({'class': 'hang', 'detail': {'load': list(current[0]) if current[0] else None}})
-    # keep one K3 record per case
-    k3 = [v for v in out['violations'] if v['class'].startswith('K3')]
-    out['violations'] = [v for v in out['violations'] if not v['class'].startswith('K3')] + k3[:1]
+    # keep one record per known class and case
+    for kn in ('K3', 'K4'):
+        kk = [v for v in out['violations'] if v['class'].startswith(kn)]
+        out['violations'] = [v for v in out['violations'] if not v['class'].startswith(kn)] + kk[:1]
     if changed:
         out['sigs'].append(observe.digest(units if is_text else units.hex()))
     out['log'] = observe.digest(logparts)
